@@ -173,7 +173,7 @@ def record(args):
         # always computed from the float copy): the scores must not depend on the dtype of the container
         Xin = X.astype(np.int64) if np.all(X == np.round(X)) and rng.integers(0, 2) else X
         try:
-            det = MovingWindow(change_score=mk(), bandwidth=b, threshold_scale=None if tuned else float(rng.choice([0.3, 1.0, 2.0])),
+            det = MovingWindow(change_score=mk(), bandwidth=b, threshold_scale=None if tuned else float(rng.choice([0.0, 0.3, 1.0, 2.0])),
                                level=level, min_detection_interval=mdi)
             if rng.integers(0, 2):
                 # the same detector object has already been used on OTHER data: what it reports for X must not depend on it
